@@ -72,6 +72,20 @@ def gen_call(rng, tok, cid='a', kinds=None, invalid_p=0.1, version=None):
             steps.append([f[0] if rng.random() < 0.7 else (f[1][3] or f[0]), v])
         return {'kind': kind, 'name': name, 'version': version, 'level': level, 'ec': eci, 'steps': steps,
                 'then': ['er7', 'names']}
+    if kind == 'field_dt':
+        # a field of a base datatype, valued, then given another base datatype, then valued again
+        name = gen.pick_segment(rng, version)
+        flds = [c for c in T.seg_fields(version, name) if c[1] is not None and c[2][1] != 0 and T.is_base(version, c[1][2])]
+        if not flds:
+            return gen_call(rng, tok, cid, ['factory'], invalid_p)
+        f = rng.choice(flds)
+        pool = sorted(T.base_datatypes(version))
+        special = [d for d in ('TN', 'IS', 'DTM', 'GTS', 'SNM', 'TM', 'CM', 'WD') if d in pool]
+        ndt = rng.choice(special) if special and rng.random() < 0.6 else rng.choice(pool)
+        v1, _ = gen.leaf(f[1][2], tok, rng, 0.0)
+        v2, _ = gen.leaf(ndt, tok, rng, 0.0)
+        return {'kind': kind, 'name': f[0], 'version': version, 'level': level, 'ec': 0, 'v1': v1 if rng.random() < 0.7 else None,
+                'dt': ndt, 'v2': v2}
     if kind == 'component_add_sub':
         alldts = sorted(set(T.lib(version).DATATYPES_STRUCTS) | T.base_datatypes(version) |
                         {'DTM', 'TN', 'IS', 'SNM', 'GTS', 'CM', 'TM'})
@@ -208,6 +222,25 @@ def run_call(c, hook=None):
             if hook:
                 hook('alive', sg)
             return {'ok': True, 'steps': log, 'obs': _observe(sg, c['then'], ec)}
+        if kind == 'field_dt':
+            from hl7apy.core import Field
+            fld = Field(c['name'], version=c['version'], validation_level=c['level'])
+            log = []
+            for stage in ('v1', 'dt', 'v2'):
+                if hook and stage != 'v1':
+                    hook('alive', fld)
+                try:
+                    if stage == 'dt':
+                        fld.datatype = c['dt']
+                    elif c.get(stage) is not None:
+                        fld.value = c[stage]
+                    log.append('ok')
+                except Exception as ex:      # noqa
+                    log.append('EXC ' + canon_exc(ex))
+            chain = [fld.datatype] + [ch.datatype for ch in fld.children] + \
+                    [sc.datatype for ch in fld.children for sc in ch.children] + \
+                    [type(sc.value).__name__ for ch in fld.children for sc in ch.children]
+            return {'ok': True, 'steps': log, 'chain': chain, 'obs': _observe(fld, ['er7'], _ec(0))}
         if kind == 'component_add_sub':
             from hl7apy.core import Component
             comp = Component(datatype=c['dt'], version=c['version'], validation_level=c['level'])
